@@ -29,3 +29,58 @@ Lemma g_deadlock_free (c : cfg val arg) :
 Proof. apply deadlock_free. eapply wf_skel_locks; eassumption. Qed.
 
 End General.
+
+(** Part 2: linearizability (proved in [C07/Lin.v]) in the form used by [Properties/C07.v]. *)
+From HV Require Import C07.Lin.
+
+Section General2.
+Variables (val arg : Type) (wfun : op arg -> nat -> list val -> val) (sk : skel) (wp : bool) (K : lock).
+Hypothesis WF : wf_skel K sk = true.
+
+Lemma g_linearizable (c0 : cfg val arg) ls c :
+  initial c0 -> exec wfun sk wp c0 ls c ->
+  exists σ pl tr ph,
+    lin wfun sk wp c0 ls c σ pl tr /\
+    seq_hist wfun sk (abs_of c0) (lins tr) σ /\
+    wb (fun _ => PIdle) tr ph /\
+    io_marks tr = io_labels ls.
+Proof.
+  intros Hi He. destruct (lin_total val arg wfun sk wp K WF c0 ls c Hi He) as (σ & pl & tr & L).
+  destruct (lin_wb val arg wfun sk wp K WF _ _ _ _ _ _ Hi L) as (ph & Hwb & _).
+  exists σ, pl, tr, ph. repeat split; auto.
+  - eapply lin_hist; eassumption.
+  - eapply lin_io; eassumption.
+Qed.
+
+Lemma g_committed (c0 : cfg val arg) ls c t o log :
+  initial c0 -> exec wfun sk wp c0 ls c -> In (LEnd t o log) ls ->
+  exists H H1 H2 s s1 s2,
+    seq_hist wfun sk (abs_of c0) H s /\ H = H1 ++ (t, o, log) :: H2 /\
+    seq_hist wfun sk (abs_of c0) H1 s1 /\ seq_run wfun sk o s1 = Some (s2, log).
+Proof. apply (completed_ops_atomic val arg wfun sk wp K WF). Qed.
+
+Lemma g_no_lost_update (c0 : cfg val arg) ls c :
+  initial c0 -> exec wfun sk wp c0 ls c -> (forall t, c_thr c t = None) ->
+  exists H σ,
+    seq_hist wfun sk (abs_of c0) H σ /\
+    (forall t o log, In (LEnd t o log) ls -> In (t, o, log) H) /\
+    (forall v, c_val c v = s_val σ v) /\ (forall p, c_heap c (c_ptr c p) = s_pub σ p).
+Proof.
+  intros Hi He Hq. destruct (lin_total val arg wfun sk wp K WF c0 ls c Hi He) as (σ & pl & tr & L).
+  destruct (lin_wb val arg wfun sk wp K WF _ _ _ _ _ _ Hi L) as (ph & Hwb & _).
+  destruct (lin_quiescent val arg wfun sk wp K WF _ _ _ _ _ _ Hi L Hq) as [Hv Hp].
+  exists (lins tr), σ. repeat split; auto.
+  - eapply lin_hist; eassumption.
+  - intros t o log Hin.
+    assert (X : In (MRes t o log) (io_labels ls)).
+    { unfold io_labels. apply in_flat_map. exists (LEnd t o log). split; [assumption|left; reflexivity]. }
+    rewrite <- (lin_io _ _ _ _ _ _ _ _ _ _ _ L) in X. unfold io_marks in X. apply filter_In in X as [X _].
+    pose proof (wb_res_lin val arg _ _ _ Hwb [] (fun t0 o0 log0 (E : PIdle = PLin o0 log0) => match E with end) t o log X) as Y.
+    exact Y.
+Qed.
+
+Lemma g_seq_total (o : op arg) path (s : sstate val) :
+  path_of sk o = Some path -> exists s' log, seq_run wfun sk o s = Some (s', log).
+Proof. apply (seq_run_total val arg wfun sk K WF). Qed.
+
+End General2.
